@@ -296,6 +296,7 @@ Definition require67 (ops : list pop) (md : mode) : bool :=
                     end) ops.
 
 Definition uses32 (m : meminfo) : bool := prefix_of "E" (m_base m) || prefix_of "E" (m_index m).
+Definition uses16 (m : meminfo) : bool := mem_string (m_base m) ["BX"; "BP"; "SI"; "DI"] || mem_string (m_index m) ["BX"; "BP"; "SI"; "DI"].
 
 (* after fix f9bd90c: 32-bit addressing rules whenever the registers are 32-bit ones, [EBP(+index)] has a disp8 0,
    [index*scale(+disp)] always a disp32 *)
@@ -305,7 +306,7 @@ Definition calc_offset_size (ops : list pop) (md : mode) : Z :=
   | Some m =>
       if String.eqb (m_base m) "" && String.eqb (m_index m) "" then (match md with M16 => 2 | M32 => 4 end)
       else
-        let addr32 := (match md with M16 => false | M32 => true end) || uses32 m in
+        let addr32 := uses32 m || ((match md with M16 => false | M32 => true end) && negb (uses16 m)) in
         if addr32 && String.eqb (m_base m) "" then 4
         else if m_disp m =? 0 then
           (if negb addr32 && String.eqb (m_base m) "BP" && String.eqb (m_index m) "" then 1
@@ -317,7 +318,7 @@ Definition calc_offset_size (ops : list pop) (md : mode) : Z :=
 Definition calc_sib_size (ops : list pop) (md : mode) : Z :=
   match first_mem ops with
   | Some m =>
-      if (match md with M16 => false | M32 => true end) || uses32 m then
+      if uses32 m || ((match md with M16 => false | M32 => true end) && negb (uses16 m)) then
         let direct := String.eqb (m_base m) "" && String.eqb (m_index m) "" in
         let ebp_noidx := String.eqb (m_base m) "EBP" && String.eqb (m_index m) "" in
         if negb direct && negb ebp_noidx && (String.eqb (m_base m) "ESP" || negb (String.eqb (m_index m) "")) then 1 else 0
@@ -544,16 +545,18 @@ Definition calc32 (m : meminfo) (regBits : Z) (mod0 : Z) (hasDisp0 : bool) : opt
   | None => None
   end.
 
+Definition is16reg (s : string) : bool := mem_string s ["BX"; "BP"; "SI"; "DI"].
+
+(* the 16-bit table is used in 16-bit mode and - since fix a2cd525 - whenever BX/BP/SI/DI address the operand *)
 Definition calc_modrm (m : meminfo) (md : mode) (regBits : Z) : option (Z * option Z * list Z) :=
   let disp := m_disp m in
   let direct := String.eqb (m_base m) "" && String.eqb (m_index m) "" in
   let hasDisp := negb (disp =? 0) || direct in
   let mod0 := if negb hasDisp && negb direct then 0 else if (-128 <=? disp) && (disp <=? 127) then 64 else 128 in
-  match md with
-  | M32 => calc32 m regBits mod0 hasDisp
-  | M16 =>
-      let b := m_base m in
-      let i := m_index m in
+  let b := m_base m in
+  let i := m_index m in
+  let use16 := match md with M16 => true | M32 => is16reg b || is16reg i end in
+  if negb use16 then calc32 m regBits mod0 hasDisp else
       let e := String.eqb in
       let sw : option (Z * Z * bool * Z) :=      (* rm, mod, hasDisp, disp; None = default branch *)
         if e b "BX" && e i "SI" then Some (0, mod0, hasDisp, disp)
@@ -576,8 +579,7 @@ Definition calc_modrm (m : meminfo) (md : mode) (regBits : Z) : option (Z * opti
           Some (mod2 + regBits + rm, None, dispBytes)
       | None =>
           if is32reg b || is32reg i then calc32 m regBits mod0 hasDisp else None
-      end
-  end.
+      end.
 
 Definition modrm_bytes (x : Z * option Z * list Z) : list Z :=
   let '(mrm, sib, disp) := x in
